@@ -156,6 +156,17 @@ PROPS["C16"] = A("as C15, with the event pipeline in all four configurations (sn
 PROPS["C09"] = A("cases are seeded sequences of adversarial network inputs to one real node (keyring on/off, 0-2 known members, one open query): structure-aware queries with empty/nil/undecodable filters, internal key and conflict queries with empty and garbage payloads, every message type with field-level type confusion (msgpack maps with the expected field names and arbitrary values), raw byte noise, responses, relay envelopes, push/pull states with nil maps and nil event slots, probe-ack payloads, member metadata up to 600 bytes through NotifyJoin/NotifyUpdate/NotifyMerge/NotifyAlive; distinct = distinct step-list hash; non-trivial = at least one input",
     "Seeded exploration (corruption as the fault kind). Oracle: the worker process survives (a panic in a goroutine the node spawned kills the worker and is attributed to the run; a panic on the delegate call itself is caught and reported), State() stays alive, and afterwards a fresh user event is delivered, a fresh query is acknowledged and Members() is readable. Each crash replays exactly.",
     quick=(4000, 45), thorough=(300000, 900))
+REAL_E = ["cmd/serf/command/agent: Agent (Create/Start/SetTags/loaders), AgentIPC server, event/log/query streams", "package serf (full node), memberlist (passive)", "go-msgpack"]
+SIM_E = ["RPC connections (in-memory listener, net.Pipe)", "network (simnet)", "clock (synctest)", "peers' gossip and query replies (injected through the node's delegate)"]
+PROPS["C24"] = A("cases are seeded request sequences on RPC connections to a real agent (auth key configured in 2/3 of the runs): every command in any order before/after the handshake, with no / wrong / right key, bodies well-formed, wrong-typed, withheld or replaced by garbage bytes, connection drops and reconnects; distinct = distinct step-list hash; non-trivial = at least one request",
+    "Seeded exploration over the real AgentIPC server. For every command sent before a successful handshake, or before the correct key: the agent's observable state (clocks, queues, tags, members, lifecycle state, dial attempts) is unchanged, every record it sends back is an error header, and the command gets an error reply. Exact replay.",
+    quick=(2500, 45), thorough=(120000, 900), engine="E agent/IPC simulator", real=REAL_E, simulated=SIM_E)
+PROPS["C25"] = A("cases are seeded interleavings on one RPC connection of stream (8 filters), query (ack on/off, 0.1-1 s timeouts), stop, plain and unknown commands, with serf events (user, member, query) generated through the node's delegate, peers' acks/responses injected at times around the query deadline, and bursts of 20 or 600 events (overflowing the 512-slot stream buffer); distinct = distinct step-list hash; non-trivial = at least one request",
+    "Seeded exploration over the real AgentIPC server and its stream goroutines on the fake clock. Every header's Seq is a request or live stream of the connection; an event stream carries only matching events, in order, and all of them unless its buffer may have overflowed; a query stream carries only acknowledgements/responses that were really injected, exactly one completion record, nothing after it. Exact replay.",
+    quick=(2000, 60), thorough=(100000, 1200), engine="E agent/IPC simulator", real=REAL_E, simulated=SIM_E)
+PROPS["C30"] = A("cases are seeded sequences of tags RPC edits (set/delete, overlapping keys, UTF-8, values sized to cross the 512-byte metadata limit) against a real agent with a tags file (real temp file); after every edit the file is reloaded through the agent's own loader; distinct = distinct step-list hash; non-trivial = at least one edit",
+    "Seeded exploration; reference map (previous minus deleted plus set, set wins) equals the node's tags after accepted edits; a rejected edit leaves the tags unchanged; after EVERY edit, accepted or rejected, the tags the agent loader reads from the file equal the tags in effect ('restart' = loader reading only durable state). Exact replay.",
+    quick=(2000, 45), thorough=(100000, 900), engine="E agent/IPC simulator", real=REAL_E, simulated=SIM_E)
 PROPS["C14"] = D("cases are seeded histories against a real Serf node whose snapshot lives on simfs: user events and queries delivered by gossip and push/pull, real joins (with/without ignoreOld) against a real peer holding events, fake-time advances around the 500 ms flush interval, and 1-3 restarts (crash: only bytes already handed to the OS survive; or clean shutdown) followed by old and new messages; distinct = distinct step-list hash; non-trivial = messages injected after a restart",
     "Seeded exploration; E and Q are read by the real recovery from the image the restart starts from; any user event with time <= E or query with time <= Q on the application channel after the restart is a violation. Exact replay.",
     quick=(2500, 60), thorough=(100000, 1200),
